@@ -1,5 +1,7 @@
 package activitypub
 
+import "time"
+
 // C01 — JSON encode -> decode round trip preserves every vocabulary property.
 
 func vpMarshalItem(it Item) ([]byte, error) {
@@ -180,6 +182,22 @@ func vpC01Degenerate(codec int) {
 }
 
 func vpH_C01_degenerate() { vpC01Degenerate(0) }
+
+// durations with a sub-second part: whole object type only (the duration writer is shared)
+func vpH_C01_subsecond_durations() {
+	ds := []time.Duration{1500 * time.Millisecond, 500 * time.Millisecond, 1001 * time.Millisecond, 12345 * time.Millisecond}
+	names := []string{"1500ms", "500ms", "1001ms", "12345ms"}
+	k := vpChoice(len(ds))
+	x := &Object{ID: vpMkIRI('i'), Type: VideoType, Duration: ds[k]}
+	b, err := x.MarshalJSON()
+	vpAssert("subsecond-duration/encodes/"+names[k], err == nil && len(b) > 0)
+	y, err := UnmarshalJSON(b)
+	vpAssert("subsecond-duration/decodes/"+names[k], err == nil && y != nil)
+	if o, ok := y.(*Object); ok {
+		vpAssert("subsecond-duration/same-value/"+names[k], o.Duration == ds[k])
+	}
+	vpReach("end")
+}
 
 func vpH_C01_Object()                { vpC01Cell(vpTypeIndex("Object")) }
 func vpH_C01_Actor()                 { vpC01Cell(vpTypeIndex("Actor")) }
